@@ -347,6 +347,26 @@ def _density_checks(ctx, dist, ref, cls, args, info):
         if [float(a).hex() for a in after] != [float(b).hex() for b in before]:
             ctx.viol(f"density-changed-by-another-instance:{cls}", {**info, "before": before, "after": after})
             return False
+    # the density at x is a function of x alone: an equal, fresh instance that is first asked other questions
+    # (integral values as int, float and bool, far-away values) gives bit-identical answers
+    try:
+        from pydsol.core.streams import MersenneTwister
+        fresh = type(dist)(MersenneTwister(1), *args)
+        probe = [float(x) for x in pts[2:9]]
+        for q in [int(x) for x in probe] + [float(int(x)) for x in probe] + [True, False, 0, 1, -1e300, 1e300]:
+            try:
+                fresh.probability_density(q)
+            except Exception:
+                pass
+        mine = [float(dist.probability_density(x)).hex() for x in probe]
+        theirs = [float(fresh.probability_density(x)).hex() for x in probe]
+        ctx.count("densities_asked_again", len(probe))
+        if mine != theirs:
+            ctx.viol(f"density-changes-between-calls:{cls}", {**info, "points": probe, "this": mine, "equal_instance_asked_other_values_first": theirs})
+            return False
+    except Exception as e:
+        ctx.viol(f"density-raises:{cls}:{type(e).__name__}", {**info, "exc": repr(e), "asked": "again"})
+        return False
     # boundary and outside points: no raise; exactly zero outside the support
     edge = [v for v in (lo, hi) if math.isfinite(v)] + ([args[1]] if cls == "DistTriangular" else [])
     for x in edge:
